@@ -566,7 +566,10 @@ def extra_checks(tier, seed):
     if tier != "thorough":
         return []
     from pyvc import replaylib as Rp
-    return [Rp.native_crosscheck("C20/bounded/keyring-real-nacl", _HARNESS,
+    return [Rp.native_crosscheck("C20/bounded/session-arms-real-nacl", _SESSION_HARNESS,
+                                 "EVENT / INVOCATION / RESULT arms x valid, tampered, wrong-key, foreign-URI payloads x codec on / off, "
+                                 "real sessions and keyrings"),
+            Rp.native_crosscheck("C20/bounded/keyring-real-nacl", _HARNESS,
                                  "three payloads x round trip, wrong key, every single-octet tampering position sampled by the "
                                  "harness, serializer tag, uncovered URI -- with freshly generated NaCl keys")]
 
@@ -648,9 +651,21 @@ print(json.dumps({"bad": bad[:6]}))
 '''
 
 
+import os as _os
+_SESSION_HARNESS = open(_os.path.join(_os.path.dirname(_os.path.abspath(__file__)), "c20_session_harness.py.txt")).read()
+
+
 def replay(o):
     from pyvc import replaylib as Rp
     unit = o.get("unit") or o.get("name", "")
+    if "onMessage<" in unit or "_exception_from_message" in unit:
+        # the session's encrypted arms: real sessions with real NaCl keyrings; valid / tampered / wrong-key / sealed-for-
+        # another-URI payloads through the EVENT, INVOCATION and RESULT arms, with and without a codec
+        out = Rp.run_py(_SESSION_HARNESS, timeout=180)
+        arm = "EVENT" if "Event" in unit else "INVOCATION" if "Invocation" in unit else "RESULT" if "Result" in unit else None
+        hits = [b for b in (out.get("bad") or []) if arm is None or b.get("case", {}).get("arm") == arm] if isinstance(out, dict) else None
+        return {"reproduced": bool(hits), "cases": (hits or [])[:3], "observed": None if hits else out,
+                "detail": "real sessions and keyrings: valid, tampered, wrong-key and foreign-URI payloads through the encrypted arms"}
     if "KeyRing" not in unit:
         return {"reproduced": False, "detail": "no replay harness for this unit"}
     out = Rp.run_py(_HARNESS, timeout=120)
